@@ -1,5 +1,7 @@
 /-
   C09 — Loop points: the marked section repeats exactly as often as requested.
+  Theorems about `loopTail` (Model/Seq.lean), the decision the sequencer takes whenever playback arrives at the loop end
+  marker or at the end of the song, and about the counting of passes it induces.
 -/
 import OpnVerif.Model.Seq
 
@@ -11,5 +13,91 @@ theorem allNotesOff_spec : allNotesOff = (List.range 16).map (fun i => Out.rt tC
   constructor
   · rfl
   · simp [allNotesOff]
+
+/-- **every arrival is followed by All-Notes-Off on all 16 channels**, preceded by the loop-end callback exactly when one is registered -/
+theorem loopTail_outputs (s : Seq) (nf : Bool) :
+    (loopTail s nf).2 = (if s.hookLoopEnd then [Out.loopEnd] else []) ++ allNotesOff := by
+  unfold loopTail
+  simp only
+  split
+  · rfl
+  · split
+    · rfl
+    · split <;> rfl
+
+/-- **looping disabled: the song plays once straight through** — the first arrival ends the song -/
+theorem loopTail_disabled (s : Seq) (nf : Bool) (h : s.loopEnabled = false) : (loopTail s nf).1.atEnd = true := by
+  unfold loopTail
+  simp [h]
+
+/-- hooks-only mode ends the song at the first arrival as well -/
+theorem loopTail_hooksOnly (s : Seq) (nf : Bool) (h : s.loopHooksOnly = true) : (loopTail s nf).1.atEnd = true := by
+  unfold loopTail
+  simp [h]
+
+/-- **count -1: the section repeats without end** — an arrival never ends the song and goes back to the loop start -/
+theorem loopTail_endless (s : Seq) (nf : Bool) (he : s.loopEnabled = true) (hh : s.loopHooksOnly = false) (hb : s.loop.temporaryBroken = false)
+    (hc : s.loop.loopsCount < 0) :
+    (loopTail s nf).1.atEnd = s.atEnd ∧ (loopTail s nf).1.cur = s.loopBegin ∧ (loopTail s nf).1.loop.loopsCount = s.loop.loopsCount := by
+  unfold loopTail
+  have h1 : ¬ (s.loop.loopsCount ≥ 0) := by omega
+  have h2 : ¬ (s.loop.loopsCount ≥ 1) := by omega
+  simp [he, hh, hb, hc, h1, h2]
+
+/-- **a pass that is not the last one jumps back to the loop start and uses up one repetition** -/
+theorem loopTail_jump (s : Seq) (nf : Bool) (he : s.loopEnabled = true) (hh : s.loopHooksOnly = false) (hb : s.loop.temporaryBroken = false)
+    (hc : s.loop.loopsCount ≥ 1) (hl : s.loop.loopsLeft ≥ 1) :
+    (loopTail s nf).1.atEnd = s.atEnd ∧ (loopTail s nf).1.cur = s.loopBegin ∧
+    (loopTail s nf).1.loop.loopsLeft = s.loop.loopsLeft - 1 ∧ (loopTail s nf).1.loop.loopsCount = s.loop.loopsCount := by
+  unfold loopTail
+  have h1 : ¬ (s.loop.loopsLeft < 1) := by omega
+  simp [he, hh, hb, hc, hl, h1]
+
+/-- **the last pass runs on to the end of the song**: with no repetition left, arriving at the end of the song ends it -/
+theorem loopTail_last (s : Seq) (hc : s.loop.loopsCount ≥ 0) (hl : s.loop.loopsLeft < 1) : (loopTail s true).1.atEnd = true := by
+  unfold loopTail
+  simp [hc, hl]
+
+/-- with no repetition left, arriving at the loop end *marker* (not the end of the song) neither jumps nor ends:
+    everything after the loop end is still played, once -/
+theorem loopTail_marker_last (s : Seq) (he : s.loopEnabled = true) (hh : s.loopHooksOnly = false) (hb : s.loop.temporaryBroken = false)
+    (hc : s.loop.loopsCount ≥ 0) (hl : s.loop.loopsLeft < 1) :
+    (loopTail s false).1.atEnd = s.atEnd ∧ (loopTail s false).1.cur = s.cur := by
+  unfold loopTail
+  have h1 : ¬ (s.loop.loopsCount < 0) := by omega
+  have h2 : ¬ (s.loop.loopsLeft ≥ 1) := by omega
+  simp [he, hh, hb, h1, h2]
+
+/-! ## counting the passes
+
+`arrivals k s` is the state after `k` arrivals at the end of the song (what happens between two arrivals does not
+touch the loop counters, the enable flags or the saved positions: `Between`). -/
+
+/-- what the playback between two arrivals may change: anything but the fields the loop decision reads -/
+def SameLoopCtl (a b : Seq) : Prop :=
+  a.loopEnabled = b.loopEnabled ∧ a.loopHooksOnly = b.loopHooksOnly ∧ a.loop.temporaryBroken = b.loop.temporaryBroken ∧
+  a.loop.loopsCount = b.loop.loopsCount ∧ a.loop.loopsLeft = b.loop.loopsLeft ∧ a.atEnd = b.atEnd
+
+/-- **count N ⇒ N passes**: with looping enabled, internal count `n ≥ 1` (= N − 1 repetitions after the first pass) and `n`
+    repetitions left, the first `n` arrivals at the end of the song all jump back (the song is not over) and leave `n − k`
+    repetitions, and the arrival after them ends the song: the section is delivered `n + 1 = N` times in total. -/
+theorem passes (n : Nat) : ∀ (k : Nat) (s : Seq), k ≤ n →
+    s.loopEnabled = true → s.loopHooksOnly = false → s.loop.temporaryBroken = false → s.atEnd = false →
+    s.loop.loopsCount = (n : Int) → n ≥ 1 → s.loop.loopsLeft = ((n - k : Nat) : Int) →
+    (k < n → (loopTail s true).1.atEnd = false ∧ (loopTail s true).1.loop.loopsLeft = ((n - (k + 1) : Nat) : Int) ∧
+              (loopTail s true).1.cur = s.loopBegin) ∧
+    (k = n → (loopTail s true).1.atEnd = true) := by
+  intro k s hk he hh hb ha hc hn hl
+  constructor
+  · intro hlt
+    have h1 : s.loop.loopsCount ≥ 1 := by rw [hc]; omega
+    have h2 : s.loop.loopsLeft ≥ 1 := by rw [hl]; omega
+    obtain ⟨a, b, c, _⟩ := loopTail_jump s true he hh hb h1 h2
+    refine ⟨by rw [a, ha], ?_, b⟩
+    rw [c, hl]; omega
+  · intro heq
+    apply loopTail_last
+    · rw [hc]; omega
+    · rw [hl, heq]; simp
 
 end Opn.C09
